@@ -1,1 +1,342 @@
-//! Reference models for the summary monitors.
+//! Reference model of a pkg_summary(5) entry, written from the statements of
+//! C07/C08/C09 and the manual page - not from the Rust code under test.
+//!
+//! * 23 variables in the fixed pkg_summary order (note `PKG_OPTIONS` comes
+//!   before `PKGNAME`, which is neither ASCII nor enum-name order);
+//! * kinds: single string (S), integer (I), multi-line (A);
+//! * eleven required variables;
+//! * printed form: one `VAR=value` line per value, variables in table order;
+//! * accepted text: every line `VAR=value` (value = everything after the
+//!   first `=`), S keeps the last value, A accumulates in input order, I is a
+//!   decimal i64; all eleven required variables present.
+//!
+//! Nothing in this file calls the library.
+
+#[derive(Clone, Copy, Debug, PartialEq, Eq)]
+pub enum Kind {
+    S,
+    I,
+    A,
+}
+
+pub struct VarInfo {
+    pub name: &'static str,
+    pub kind: Kind,
+    pub required: bool,
+}
+
+const fn v(name: &'static str, kind: Kind, required: bool) -> VarInfo {
+    VarInfo { name, kind, required }
+}
+
+pub const NVARS: usize = 23;
+
+/// The table, in printing order.
+pub const VARS: [VarInfo; NVARS] = [
+    v("BUILD_DATE", Kind::S, true),
+    v("CATEGORIES", Kind::S, true),
+    v("COMMENT", Kind::S, true),
+    v("CONFLICTS", Kind::A, false),
+    v("DEPENDS", Kind::A, false),
+    v("DESCRIPTION", Kind::A, true),
+    v("FILE_CKSUM", Kind::S, false),
+    v("FILE_NAME", Kind::S, false),
+    v("FILE_SIZE", Kind::I, false),
+    v("HOMEPAGE", Kind::S, false),
+    v("LICENSE", Kind::S, false),
+    v("MACHINE_ARCH", Kind::S, true),
+    v("OPSYS", Kind::S, true),
+    v("OS_VERSION", Kind::S, true),
+    v("PKG_OPTIONS", Kind::S, false),
+    v("PKGNAME", Kind::S, true),
+    v("PKGPATH", Kind::S, true),
+    v("PKGTOOLS_VERSION", Kind::S, true),
+    v("PREV_PKGPATH", Kind::S, false),
+    v("PROVIDES", Kind::A, false),
+    v("REQUIRES", Kind::A, false),
+    v("SIZE_PKG", Kind::I, true),
+    v("SUPERSEDES", Kind::A, false),
+];
+
+pub const BUILD_DATE: usize = 0;
+pub const CATEGORIES: usize = 1;
+pub const COMMENT: usize = 2;
+pub const CONFLICTS: usize = 3;
+pub const DEPENDS: usize = 4;
+pub const DESCRIPTION: usize = 5;
+pub const FILE_CKSUM: usize = 6;
+pub const FILE_NAME: usize = 7;
+pub const FILE_SIZE: usize = 8;
+pub const HOMEPAGE: usize = 9;
+pub const LICENSE: usize = 10;
+pub const MACHINE_ARCH: usize = 11;
+pub const OPSYS: usize = 12;
+pub const OS_VERSION: usize = 13;
+pub const PKG_OPTIONS: usize = 14;
+pub const PKGNAME: usize = 15;
+pub const PKGPATH: usize = 16;
+pub const PKGTOOLS_VERSION: usize = 17;
+pub const PREV_PKGPATH: usize = 18;
+pub const PROVIDES: usize = 19;
+pub const REQUIRES: usize = 20;
+pub const SIZE_PKG: usize = 21;
+pub const SUPERSEDES: usize = 22;
+
+/// The eleven required variables, in table order.
+pub const REQUIRED: [usize; 11] = [
+    BUILD_DATE,
+    CATEGORIES,
+    COMMENT,
+    DESCRIPTION,
+    MACHINE_ARCH,
+    OPSYS,
+    OS_VERSION,
+    PKGNAME,
+    PKGPATH,
+    PKGTOOLS_VERSION,
+    SIZE_PKG,
+];
+
+pub fn optional() -> Vec<usize> {
+    (0..NVARS).filter(|&i| !VARS[i].required).collect()
+}
+
+pub fn multi() -> Vec<usize> {
+    (0..NVARS).filter(|&i| VARS[i].kind == Kind::A).collect()
+}
+
+pub fn index_of(name: &str) -> Option<usize> {
+    VARS.iter().position(|x| x.name == name)
+}
+
+#[derive(Clone, Debug, PartialEq, Eq)]
+pub enum Val {
+    S(String),
+    I(i64),
+    A(Vec<String>),
+}
+
+impl Val {
+    pub fn kind(&self) -> Kind {
+        match self {
+            Val::S(_) => Kind::S,
+            Val::I(_) => Kind::I,
+            Val::A(_) => Kind::A,
+        }
+    }
+    /// The value texts, one per printed line.
+    pub fn texts(&self) -> Vec<String> {
+        match self {
+            Val::S(s) => vec![s.clone()],
+            Val::I(i) => vec![i.to_string()],
+            Val::A(a) => a.clone(),
+        }
+    }
+}
+
+/// The current value of each variable (None = unset).
+#[derive(Clone, Debug, PartialEq, Eq)]
+pub struct Entry {
+    pub vals: Vec<Option<Val>>,
+}
+
+impl Default for Entry {
+    fn default() -> Self {
+        Entry { vals: vec![None; NVARS] }
+    }
+}
+
+impl Entry {
+    pub fn new() -> Entry {
+        Entry::default()
+    }
+
+    /// `set_*`: replaces whatever was there.
+    pub fn set(&mut self, var: usize, val: Val) {
+        debug_assert!(val.kind() == VARS[var].kind);
+        self.vals[var] = Some(val);
+    }
+
+    /// `push_*`: appends one line to a multi-line variable (creating it).
+    pub fn push(&mut self, var: usize, line: &str) {
+        debug_assert!(VARS[var].kind == Kind::A);
+        match &mut self.vals[var] {
+            Some(Val::A(a)) => a.push(line.to_string()),
+            _ => self.vals[var] = Some(Val::A(vec![line.to_string()])),
+        }
+    }
+
+    pub fn get(&self, var: usize) -> Option<&Val> {
+        self.vals[var].as_ref()
+    }
+
+    pub fn is_set(&self, var: usize) -> bool {
+        self.vals[var].is_some()
+    }
+
+    /// Required variables that are not set, in table order.
+    pub fn missing(&self) -> Vec<usize> {
+        REQUIRED.iter().copied().filter(|&i| self.vals[i].is_none()).collect()
+    }
+
+    pub fn is_complete(&self) -> bool {
+        self.missing().is_empty()
+    }
+
+    pub fn optional_set(&self) -> usize {
+        (0..NVARS).filter(|&i| !VARS[i].required && self.vals[i].is_some()).count()
+    }
+
+    /// Canonical text: one `VAR=value` line per value, table order, every
+    /// line terminated by `\n`.
+    pub fn print(&self) -> String {
+        let mut out = String::new();
+        for (i, val) in self.vals.iter().enumerate() {
+            let Some(val) = val else { continue };
+            for t in val.texts() {
+                out.push_str(VARS[i].name);
+                out.push('=');
+                out.push_str(&t);
+                out.push('\n');
+            }
+        }
+        out
+    }
+
+    /// The variable that owns the last printed line (None for an empty entry).
+    pub fn last_printed(&self) -> Option<usize> {
+        (0..NVARS).rev().find(|&i| match &self.vals[i] {
+            Some(Val::A(a)) => !a.is_empty(),
+            Some(_) => true,
+            None => false,
+        })
+    }
+
+    /// First variable on which two entries differ.
+    pub fn first_difference(&self, other: &Entry) -> Option<usize> {
+        (0..NVARS).find(|&i| self.vals[i] != other.vals[i])
+    }
+}
+
+/// Strict decimal i64: optional `-`, one or more ASCII digits, in range.
+/// (`+5` is deliberately not classified - the generators never produce it.)
+pub fn parse_int(s: &str) -> Option<i64> {
+    let (neg, digits) = match s.strip_prefix('-') {
+        Some(d) => (true, d),
+        None => (false, s),
+    };
+    if digits.is_empty() || !digits.bytes().all(|b| b.is_ascii_digit()) {
+        return None;
+    }
+    let mut acc: i128 = 0;
+    for b in digits.bytes() {
+        acc = acc * 10 + (b - b'0') as i128;
+        if acc > (1i128 << 64) {
+            return None;
+        }
+    }
+    if neg {
+        acc = -acc;
+    }
+    if acc < i64::MIN as i128 || acc > i64::MAX as i128 {
+        return None;
+    }
+    Some(acc as i64)
+}
+
+/// Why a text is not an acceptable entry.
+#[derive(Clone, Copy, Debug, PartialEq, Eq, PartialOrd, Ord)]
+pub enum Cause {
+    /// a line without `=`
+    Line,
+    /// `NAME=...` with NAME not one of the 23
+    Variable,
+    /// FILE_SIZE / SIZE_PKG value that is not an integer
+    Int,
+    /// required variable (table index) absent
+    Missing(usize),
+}
+
+impl Cause {
+    pub fn name(&self) -> String {
+        match self {
+            Cause::Line => "ParseLine".into(),
+            Cause::Variable => "ParseVariable".into(),
+            Cause::Int => "ParseInt".into(),
+            Cause::Missing(i) => format!("Incomplete({})", VARS[*i].name),
+        }
+    }
+    pub fn class(&self) -> &'static str {
+        match self {
+            Cause::Line => "line",
+            Cause::Variable => "variable",
+            Cause::Int => "int",
+            Cause::Missing(_) => "missing",
+        }
+    }
+}
+
+/// A well-formed line as the generator made it.
+#[derive(Clone, Debug, PartialEq, Eq)]
+pub struct Line {
+    pub var: usize,
+    pub text: String,
+}
+
+impl Line {
+    pub fn render(&self) -> String {
+        format!("{}={}", VARS[self.var].name, self.text)
+    }
+}
+
+/// Fold well-formed lines into the entry they denote: single-valued
+/// variables keep the last value, multi-line ones accumulate in input order.
+/// Returns None if an integer line is not a strict decimal i64 (the
+/// generators never do that for lines they call well-formed).
+pub fn fold(lines: &[Line]) -> Option<Entry> {
+    let mut e = Entry::new();
+    for l in lines {
+        match VARS[l.var].kind {
+            Kind::S => e.set(l.var, Val::S(l.text.clone())),
+            Kind::I => e.set(l.var, Val::I(parse_int(&l.text)?)),
+            Kind::A => e.push(l.var, &l.text),
+        }
+    }
+    Some(e)
+}
+
+/// Reference reading of an arbitrary entry text (used to cross-check the
+/// generators' by-construction expectations): returns the entry denoted by
+/// the well-formed lines and every cause of rejection present.
+pub fn read(text: &str) -> (Entry, Vec<Cause>) {
+    let mut e = Entry::new();
+    let mut causes = vec![];
+    let body = text.strip_suffix('\n').unwrap_or(text);
+    if !text.is_empty() {
+        for line in body.split('\n') {
+            let Some(eq) = line.find('=') else {
+                causes.push(Cause::Line);
+                continue;
+            };
+            let (name, value) = (&line[..eq], &line[eq + 1..]);
+            let Some(var) = index_of(name) else {
+                causes.push(Cause::Variable);
+                continue;
+            };
+            match VARS[var].kind {
+                Kind::S => e.set(var, Val::S(value.to_string())),
+                Kind::A => e.push(var, value),
+                Kind::I => match parse_int(value) {
+                    Some(i) => e.set(var, Val::I(i)),
+                    None => causes.push(Cause::Int),
+                },
+            }
+        }
+    }
+    for m in e.missing() {
+        causes.push(Cause::Missing(m));
+    }
+    causes.sort();
+    causes.dedup();
+    (e, causes)
+}
